@@ -146,6 +146,16 @@ func c10(c *Ctx) (*report.Result, error) {
 		}
 	}
 	checkSessionIDs(c, res, "O10.7")
+	res.RuleDoc["O10.8"] = "no blocking operation under the session table's locks except the reviewed shutdown closes (same analysis and table as O11.5): connecting, pinging, waiting and stream I/O happen outside muxesLock"
+	{
+		var pk []*ssa.Package
+		for _, rel := range []string{"transport/mux", "transport/mux/session"} {
+			if spk, err := c.Prog.SSAPkg(rel); err == nil {
+				pk = append(pk, spk)
+			}
+		}
+		checkNoBlockingUnderLock(c, res, "O10.8", pk, func(string, string) bool { return true }, muxLockAllowed)
+	}
 	return res, nil
 }
 
